@@ -265,8 +265,14 @@ class Skel(AbstractValue):
         return interp.oracle.decide(('cond', ('nonempty', id(self))), 'nonempty-skel')
 
     def abs_method(self, interp, name, args, kwargs):
-        if name in ('rstrip', 'strip', 'lstrip') :
-            return self
+        if name in ('rstrip', 'strip', 'lstrip'):
+            # stripping reaches the document text at the affected end(s): recorded on those pieces as a lossy step
+            parts = list(self.parts)
+            ends = ([0] if name in ('lstrip', 'strip') else []) + ([len(parts) - 1] if name in ('rstrip', 'strip') else [])
+            for i in ends:
+                if 0 <= i < len(parts) and isinstance(parts[i], Hole) and isinstance(parts[i].value, Taint):
+                    parts[i] = Hole(parts[i].value.clone(op=name))
+            return Skel(parts) if parts != list(self.parts) else self
         if name in ('splitlines', 'split'):
             return AbsSeq(('split', id(self)), lambda i: Markup(what='line of rendered text'))
         if name in ('startswith', 'endswith'):
